@@ -618,6 +618,12 @@ func Gen(w *bufio.Writer, seed uint64, tier string) {
 			e.always(fmt.Sprintf("C11 ep %s deb:%s -", en, v))
 		}
 	}
+	// synthetic JARs: member names / manifest attributes the manifest writer and parser of lib/signjar must survive
+	for _, v := range jarVariants {
+		for _, en := range []string{"sign:jar", "verify:jar", "transform:jar", "sign:apk"} {
+			e.always(fmt.Sprintf("C11 ep %s jarsyn:%s -", en, v))
+		}
+	}
 	for _, l := range LibEntries {
 		for _, fam := range families {
 			e.always(fmt.Sprintf("C11 ep lib:%s %s -", l, fam.bases[0]))
@@ -713,7 +719,10 @@ func genServer(e *emitter, r *hx.Rng, thorough bool) {
 	binary.LittleEndian.PutUint32(img2[p2+24+36:], 0)
 	e.always("C11 srv appx appxpe:" + hex.EncodeToString(img2) + " -")
 	e.always("C11 srv appx appxpe:" + hex.EncodeToString(img) + " -")
-	for _, v := range []string{"badgz", "zstctl", "tarerr", "bigctl"} {
+	for _, v := range []string{"contbytes-name", "contbytes-manifest", "name-71"} {
+		e.always("C11 srv jar jarsyn:" + v + " -")
+	}
+	for _, v := range []string{"badgz", "zstctl", "tarerr", "bigctl", "ctl:trailing-blank", "ctl:two-paragraphs", "ctl:binary"} {
 		e.always("C11 srv deb deb:" + v + " -")
 	}
 	for _, fam := range families {
